@@ -305,7 +305,7 @@ def definition(cell, n: int):
     return text, valid, r
 
 
-FAMILY_FORM = {'mask4', 'mask6', 'nexthop', 'aspath', 'community', 'large', 'ext', 'pathid', 'aggregator', 'originator', 'cluster', 'aigp', 'origin', 'med', 'local-preference'}
+FAMILY_FORM = {'nonexthop', 'mask4', 'mask6', 'nexthop', 'aspath', 'community', 'large', 'ext', 'pathid', 'aggregator', 'originator', 'cluster', 'aigp', 'origin', 'med', 'local-preference'}
 
 
 def api_spelling(plan: dict, i: int, text: str) -> str:
@@ -365,6 +365,7 @@ def execute(plan: dict) -> dict:
                     w.signal('SHUTDOWN')
                     return
                 text, valid, r = defs[st['i'] - 1]
+                text = api_spelling(plan, st['i'] - 1, text)  # (what was written on the pipe)
                 verdict = acks[-1][1]
                 st['verdicts'].append(verdict)
                 msg = error_text_since(st['l0'])
